@@ -471,6 +471,20 @@ impl<'a, R: Rng> Gen<'a, R> {
             Ty::Phantom | Ty::Json => {
                 if self.cfg.nonfinite && self.chance(0.05) {
                     self.nonfinite()
+                } else if self.cfg.nonfinite && self.chance(0.12) {
+                    // an object / array holding several values JSON cannot represent, among ordinary ones
+                    let n = 2 + self.below(3);
+                    let mut members: Vec<(String, PV)> = vec![];
+                    for i in 0..n {
+                        let v = if self.chance(0.6) { self.nonfinite() } else { self.blind(depth.max(2)) };
+                        members.push((format!("k{i}"), v));
+                    }
+                    self.shuffle(&mut members);
+                    if self.chance(0.7) {
+                        PV::Map(members)
+                    } else {
+                        PV::Seq(members.into_iter().map(|x| x.1).collect())
+                    }
                 } else {
                     self.blind(depth.max(1))
                 }
